@@ -298,6 +298,38 @@ def main(tier):
                         "NegateRoundingMode, ApplyUnsignedRoundingMode) are correct",
                         "is_exact / result_floor / result_ceil / is_even_cardinal mean what their names say "
                         "(their arithmetic is not decided here)"]
+    # sibling agreement inside Roundable: the parity used for half-even is the parity of r1 (result_floor), the lower
+    # neighbour the unsigned rounding chooses between - not of some other quotient
+    rule = "R6.cardinality-of-result-floor"
+    run.rule(rule, "for every Roundable implementation, is_even_cardinal tests the parity of the value result_floor returns for "
+                   "the same arguments (r1 of ApplyUnsignedRoundingMode): either by calling result_floor or through the same "
+                   "quotient expression; a differently rounded quotient (floor instead of truncated magnitude) has the other "
+                   "parity for negative non-multiples")
+    rsx = fx["temporal_rs"]
+    impls = sorted({f.path.split(" as ")[0][1:] for f in rsx.fns if " as temporal_rs::rounding::Roundable>::result_floor" in f.path})
+    if len(impls) < 2:
+        run.anchor_missing(rule, "impls", "expected the i128 and f64 Roundable implementations, found %s" % impls)
+    for ty in impls:
+        rf = rsx.fn("<%s as temporal_rs::rounding::Roundable>::result_floor" % ty)
+        ie = rsx.fn("<%s as temporal_rs::rounding::Roundable>::is_even_cardinal" % ty)
+        if rf is None or ie is None:
+            run.anchor_missing(rule, ty, "result_floor / is_even_cardinal not found")
+            continue
+        terms = {}
+        for nm, g in (("rf", rf), ("ie", ie)):
+            ev = H.Evaluator(fx)
+            ev.inline = lambda p: False
+            terms[nm] = ev.call_fn(g, [H.Sym("param", (p["name"],)) for p in ("dividend", "divisor")] if False else
+                                   [H.Sym("param", (p["name"],)) for p in g.params])
+        core = terms["rf"]
+        while isinstance(core, H.Sym) and core.what == "cast":
+            core = core.parts[0]
+        s_ie, s_core = show(terms["ie"]), show(core)
+        names = [p["name"] for p in rf.params]
+        calls_rf = "result_floor($%s, $%s)" % tuple(names) in s_ie
+        run.check(calls_rf or s_core in s_ie, rule, ty, "parity of %s" % ("result_floor(..)" if calls_rf else s_core[:60]),
+                  "<%s as Roundable>::is_even_cardinal = %s does not test the parity of result_floor = %s" %
+                  (ty, s_ie[:120], show(terms["rf"])[:80]), ie.loc)
     # R11: to-string paths skip the rounding kernel only when rounding is the identity
     rule = "R11.rounding-skipped-only-when-identity"
     run.rule(rule, "a to-string operation returns without calling a rounding kernel only on paths that decided BOTH the resolved "
